@@ -65,6 +65,92 @@ fn check(ctx: &Ctx, dev_name: &str, form: &isa::Form, vals: &[i64]) {
     ctx.count(if forbidden.is_some() { "forbidden_pairs_runs" } else { "allowed_pairs_runs" }, 1);
 }
 
+/// Whole programs per device: the gate must decide every instruction on its own, whatever was
+/// assembled before it (a verdict cached per mnemonic, per segment or per build would pass the
+/// one-instruction sweep).
+fn sequences(ctx: &Ctx, rounds: u64) {
+    let table = devices::table();
+    let forms = isa::forms();
+    let work: Vec<(usize, u64)> = (0..table.len()).flat_map(|d| (0..rounds).map(move |r| (d, r))).collect();
+    fw::par_items(&work, |_, (di, round)| {
+        let (name, dev) = &table[*di];
+        let reduced = devices::is_reduced(dev);
+        let mut rng = Rng::for_case(ctx.seed, 0xC13_5, (*di as u64) << 16 | round);
+        let usable: Vec<usize> = (0..forms.len()).filter(|i| !((forms[*i].core == Core::Reduced && !reduced) || (forms[*i].core == Core::Full && reduced))).collect();
+        let allowed: Vec<usize> = usable.iter().cloned().filter(|i| devices::forbidding_flag(dev, &forms[*i].name).is_none()).collect();
+        let forbidden: Vec<usize> = usable.iter().cloned().filter(|i| devices::forbidding_flag(dev, &forms[*i].name).is_some()).collect();
+        let tuple = |f: &isa::Form, rng: &mut Rng| -> Vec<i64> {
+            let mut t = f.tuple_at(rng.below(f.space()));
+            for (i, o) in f.ops.iter().enumerate() {
+                if let Opk::Rel { .. } = o {
+                    t[i] = t[i].clamp(-3, 3);
+                }
+            }
+            t
+        };
+        // (a) a program of allowed forms only, sometimes split over several .cseg blocks
+        let n = 10 + rng.usize(30);
+        let mut src = format!(".device {}\n", name);
+        let mut expect: Vec<u8> = vec![];
+        let mut lines: Vec<(usize, String)> = vec![];
+        for _ in 0..n {
+            let fi = *rng.pick(&allowed);
+            let t = tuple(&forms[fi], &mut rng);
+            let text = forms[fi].text(&t);
+            if rng.chance(1, 8) {
+                src.push_str(".dseg\n.cseg\n");
+            }
+            src.push_str(&text);
+            src.push('\n');
+            expect.extend(isa::words_to_bytes(&isa::encode(&forms[fi], &t)));
+            lines.push((fi, text));
+        }
+        let out = fw::build_str(&src);
+        ctx.eval(1);
+        ctx.count("sequence_programs_allowed_only", 1);
+        match &out {
+            Outcome::Ok(b) if b.code == expect => {}
+            other => ctx.violation(
+                "gate/sequence/allowed-program",
+                format!("program of {} instructions that {} has was rejected or mis-assembled: {}", n, name, fw::clip(&format!("{:?}", other.brief()), 160)),
+                json!({"source": src, "device": name, "sequence": true, "must_build": true, "expect_code": fw::hex(&expect, 4096)}),
+            ),
+        }
+        // (b) every forbidden form after a prefix that already used allowed forms of the same mnemonic
+        for fi in forbidden.iter() {
+            let f = &forms[*fi];
+            let mut src = format!(".device {}\n", name);
+            let siblings: Vec<usize> = allowed.iter().cloned().filter(|a| forms[*a].mn == f.mn).collect();
+            let k = 1 + rng.usize(6);
+            for j in 0..k {
+                let pick = if !siblings.is_empty() && (j == 0 || rng.chance(1, 2)) { *rng.pick(&siblings) } else { *rng.pick(&allowed) };
+                let t = tuple(&forms[pick], &mut rng);
+                src.push_str(&forms[pick].text(&t));
+                src.push('\n');
+            }
+            let t = tuple(f, &mut rng);
+            src.push_str(&f.text(&t));
+            src.push('\n');
+            // and something allowed after it
+            let pick = *rng.pick(&allowed);
+            let t2 = tuple(&forms[pick], &mut rng);
+            src.push_str(&forms[pick].text(&t2));
+            src.push('\n');
+            let out = fw::build_str(&src);
+            ctx.eval(1);
+            ctx.count("sequence_programs_with_one_forbidden_form", 1);
+            if !out.is_err() {
+                let flag = devices::forbidding_flag(dev, &f.name).map(|x| format!("{:?}", x)).unwrap_or_default();
+                ctx.violation(
+                    format!("gate/{}/{}/accepted-after-allowed-instructions", flag, f.name),
+                    format!("`{}` assembled on {} (which has {}) when it followed allowed instructions{}", f.text(&t), name, flag, if siblings.is_empty() { "" } else { " of the same mnemonic" }),
+                    json!({"source": src, "device": name, "sequence": true, "must_build": false}),
+                );
+            }
+        }
+    });
+}
+
 pub fn run(ctx: &Ctx) -> i32 {
     if let Err(e) = isa::selfcheck() {
         println!("HARNESS-FAILURE property=C13 {}", e);
@@ -107,15 +193,31 @@ pub fn run(ctx: &Ctx) -> i32 {
         let (name, fi, t) = &work[i as usize];
         check(ctx, name, &forms[*fi], t);
     });
+    sequences(ctx, ctx.tier.pick(3, 40));
     ctx.exhaustive.store(true, std::sync::atomic::Ordering::Relaxed);
     fw::finish(
         ctx,
-        "every device of DEVICES x every instruction form of the reference ISA (the lds/sts form of the device's core) x lowest and highest legal operand tuple (thorough: + 64 random tuples); forbidden iff a flag of the device forbids the form per the DisabledOptions documentation; distinct_nontrivial = distinct (device, form) pairs",
+        "every device of DEVICES x every instruction form of the reference ISA (the lds/sts form of the device's core) x lowest and highest legal operand tuple (thorough: + 64 random tuples); forbidden iff a flag of the device forbids the form per the DisabledOptions documentation; plus per device 3 (thorough 40) whole programs of 10-40 allowed instructions (must build to the concatenated encodings) and, for every forbidden form, a program where it follows 1-6 allowed instructions incl. allowed forms of the same mnemonic (must fail); distinct_nontrivial = distinct (device, form) pairs",
         &["flag→forms map transcribed from the doc comments of DisabledOptions (refmodel/devices.rs); flags read from the DEVICES table at run time, as the statement says"],
     )
 }
 
 pub fn replay(ctx: &Ctx, case: &Value) -> i32 {
+    if case["sequence"].as_bool() == Some(true) {
+        let out = fw::build_str(case["source"].as_str().unwrap_or(""));
+        ctx.eval(1);
+        ctx.distinct(1);
+        ctx.distinct(2);
+        let bad = match (&out, case["must_build"].as_bool()) {
+            (Outcome::Ok(b), Some(true)) => Some(fw::hex(&b.code, 4096).as_str()) != case["expect_code"].as_str(),
+            (Outcome::Err(_), Some(false)) => false,
+            _ => true,
+        };
+        if bad {
+            ctx.violation("gate/sequence/replay", "replayed sequence still deviates", case.clone());
+        }
+        return fw::finish(ctx, "replay", &[]);
+    }
     let dev = case["device"].as_str().unwrap_or("");
     let form = isa::form(case["form"].as_str().unwrap_or("nop"));
     let vals: Vec<i64> = case["vals"].as_array().map(|a| a.iter().filter_map(|x| x.as_i64()).collect()).unwrap_or_default();
